@@ -35,6 +35,20 @@ func runC08(c *Ctx) {
 	// what the accessors stored on top of the request THEY were given — a validation stage's private copy (negotiated
 	// against the route's list in spec order) does not leak into the request passed on
 	ruleMemoContextRooted(c, "R08.2")
+	// the untyped operation wrapper answers with the ROUTE's produces list (the operation's own list completed by the
+	// spec-level one and the API default): never the bare operation's
+	if nr := p.FnOpt("rt/middleware.newRoutableUntypedAPI"); nr != nil {
+		for _, g := range anonFuncsDeep(nr) {
+			for _, ci := range callsIn(g, "(*rt/middleware.Context).Respond") {
+				_, a := callArgs(ci.Common())
+				if len(a) < 3 {
+					continue
+				}
+				okP, bad := allOrigins(a[2], oFieldLoad(routeEntryT, "Produces", nil), oFieldLoad("rt/middleware.MatchedRoute", "Produces", nil))
+				c.obI("R08.2", ci, "wrapper-responds-with-the-routes-produces", okP, "the operation wrapper hands Respond the matched route's Produces", "produces argument originates from "+describeOrigin(bad))
+			}
+		}
+	}
 	// an error responder ADDS its extra headers (Header().Add): it never installs a value list wholesale over what the
 	// response already carries — the negotiated Content-Type in particular
 	if wr := p.FnOpt("(*rt/middleware.errorResp).WriteResponse"); wr != nil {
@@ -191,6 +205,18 @@ func runC08(c *Ctx) {
 	var codeV ssa.Value
 	if len(succ) == 1 {
 		codeV = resultOf(succ[0].(*ssa.Call), 1)
+	}
+	// the declared status is used only when SuccessResponse REPORTED one (its ok result): the default response it hands
+	// back otherwise comes with code 0
+	if len(succ) == 1 {
+		if okV := resultOf(succ[0].(*ssa.Call), 2); okV != nil && codeV != nil {
+			for _, ci := range callsIn(f, "(net/http.ResponseWriter).WriteHeader") {
+				_, a := callArgs(ci.Common())
+				if fromCode, _ := allOrigins(a[0], oIsValue(codeV)); fromCode {
+					c.obI("R08.2", ci, "declared-status-only-when-reported", guardedBy(ci, succ[0], factBool(vIs(okV), true)), "the status taken from SuccessResponse is written only behind its ok result", "WriteHeader(code) is reachable without the ok result having been true: an operation with only a default response gets WriteHeader(0)")
+				}
+			}
+		}
 	}
 	routeNil := factNil(vOrigins(oIsValue(route)), true)
 	opNil := factNil(vFieldLoadO(routeEntryT, "Operation"), true)
